@@ -193,13 +193,23 @@ def run_one(sc):
     root = tempfile.mkdtemp(prefix="rtflite-verif-exp-")
     rec = {"id": sc["id"], "sc": s}
     old_tmp = tempfile.tempdir
+    old_cwd, old_home = os.getcwd(), os.environ.get("HOME")
     fake = None
     try:
         doc = make_doc()
         expected_rtf = doc.rtf_encode()
         priv = os.path.join(root, "tmp")
         os.makedirs(priv)
-        if s["target0"] == "missingdir":
+        cwd_dir = os.path.join(root, "cwd")
+        os.makedirs(cwd_dir)
+        os.chdir(cwd_dir)
+        if s["target0"] == "tilde":
+            # a home-relative target ("~/reports/2024/...") whose directories do not exist yet
+            home = os.path.join(root, "home")
+            os.makedirs(home)
+            os.environ["HOME"] = home
+            parent = os.path.join(home, "reports", "2024")
+        elif s["target0"] == "missingdir":
             parent = os.path.join(root, "deep", "er")
         else:
             parent = os.path.join(root, "out")
@@ -208,6 +218,7 @@ def run_one(sc):
                 f.write("keep")
         tname = s.get("tname", "std")
         target = os.path.join(parent, "report" + {"std": "." + _ext(writer), "htm": ".htm", "noext": ""}[tname])
+        target_arg = ("~/reports/2024/" + os.path.basename(target)) if s["target0"] == "tilde" else target
         if s["target0"] == "old":
             with open(target, "wb") as f:
                 f.write(b"OLD CONTENT \x00\xff")
@@ -215,6 +226,7 @@ def run_one(sc):
         def snap():
             t = _sha(open(target, "rb").read()) if os.path.isfile(target) else ("DIR" if os.path.isdir(target) else "")
             beside = sorted(x for x in os.listdir(parent) if x != os.path.basename(target)) if os.path.isdir(parent) else []
+            beside += ["cwd:" + x for x in sorted(os.listdir(cwd_dir))]       # nothing may appear in the working directory
             ntmp = len(os.listdir(priv))
             return {"target": t, "beside": beside, "tmp": ntmp}
         if s.get("prior", "none") == "export_edit":
@@ -237,6 +249,10 @@ def run_one(sc):
                                                           "ver": "7.1", "beh": beh, "behat": 1})
             os.makedirs(os.path.join(root, "lo"))
             fake.__enter__()
+            # (the fake environment switches HOME and the working directory: put the scenario's own back)
+            os.chdir(cwd_dir)
+            if s["target0"] == "tilde":
+                os.environ["HOME"] = home
             if s["converter"] == "real":
                 conv = LibreOfficeConverter(executable_path=fake.arg())
         fired = {"v": False, "n": 0}
@@ -273,7 +289,7 @@ def run_one(sc):
         sys.settrace(tracer if k else None)
         try:
             with contextlib.redirect_stdout(io.StringIO()):
-                _call(doc, writer, target, conv)
+                _call(doc, writer, target_arg, conv)
         except BaseException as ex:  # noqa
             outcome, exc = "raised", type(ex).__name__
         finally:
@@ -320,6 +336,14 @@ def run_one(sc):
         return rec
     finally:
         tempfile.tempdir = old_tmp
+        try:
+            os.chdir(old_cwd)
+            if old_home is None:
+                os.environ.pop("HOME", None)
+            else:
+                os.environ["HOME"] = old_home
+        except Exception:  # noqa
+            pass
         if fake is not None:
             fake.__exit__(None, None, None)
         shutil.rmtree(root, ignore_errors=True)
